@@ -262,7 +262,10 @@ def run_plan(ctx, binp, jobs, tag, timeout):
                                "GOMAXPROCS": "4"},
                           timeout=timeout + 60, cwd=d)
     if "VERIF-RACE-DONE" not in out:
-        raise vlib.Inconclusive("race harness did not finish (%s, rc=%s):\n%s" % (tag, rc, out[-3000:]))
+        last = re.findall(r"VERIF-JOB-BEGIN [^\n]*", out)
+        fatal = re.findall(r"(?m)^(?:panic:|fatal error:|VERIF-RACE-FATAL)[^\n]*", out)
+        raise vlib.Inconclusive("race harness did not finish (%s, rc=%s; last job: %s; %s):\n%s" % (
+            tag, rc, last[-1] if last else "none", "; ".join(fatal[:3]) or "no panic line", out[-1500:]))
     shutil.rmtree(d, ignore_errors=True)
     return out
 
